@@ -607,6 +607,11 @@ func (s *Store) gcIndex(ctx context.Context) error {
 			var err error
 			subject, err = manifestutil.Subject(ctx, s.storage, *subject)
 			if err != nil {
+				if errors.Is(err, errdef.ErrNotFound) {
+					// the chain ends at content that is not in the store:
+					// the referrer cannot reach the existing graph
+					break
+				}
 				return err
 			}
 			if subject == nil {
